@@ -92,6 +92,22 @@ impl<'tcx> FmtVisitor<'tcx> {
     fn loc(&self, sp: Span) -> J {
         span_json(self.tcx, sp)
     }
+    /// non-doc attributes as written (source text of the attribute's own span)
+    fn attr_texts(&self, owner: &str, attrs: &[rustc_ast::Attribute], out: &mut Vec<J>) {
+        for a in attrs {
+            if a.is_doc_comment() {
+                continue;
+            }
+            let txt = match &a.kind {
+                rustc_ast::AttrKind::Normal(n) => {
+                    let sm = self.tcx.sess.source_map();
+                    sm.span_to_snippet(n.item.span()).unwrap_or_else(|_| rustc_ast_pretty_path(&n.item.path))
+                }
+                _ => continue,
+            };
+            out.push(J::obj().set("owner", J::s(owner)).set("text", J::s(txt)));
+        }
+    }
 }
 
 impl<'a, 'tcx> rustc_ast::visit::Visitor<'a> for FmtVisitor<'tcx> {
@@ -111,6 +127,38 @@ impl<'a, 'tcx> rustc_ast::visit::Visitor<'a> for FmtVisitor<'tcx> {
             ItemKind::Trait(t) => format!("trait {}", t.ident.name),
             _ => String::new(),
         };
+        // derive-helper attributes (`serde(..)`) are inert: they survive expansion in the AST (with `cfg_attr`
+        // already resolved for this feature set) but are not kept in the HIR
+        match &i.kind {
+            ItemKind::Struct(ident, _, vd) => {
+                let mut rec = Vec::new();
+                self.attr_texts("item", &i.attrs, &mut rec);
+                for f in vd.fields() {
+                    let fname = f.ident.map(|x| x.name.to_string()).unwrap_or_default();
+                    self.attr_texts(&format!("field {}", fname), &f.attrs, &mut rec);
+                }
+                self.out.push(J::obj().set(
+                    "adt_attrs",
+                    J::obj().set("name", J::s(ident.name.as_str())).set("at", self.loc(ident.span)).set("attrs", J::Arr(rec)),
+                ));
+            }
+            ItemKind::Enum(ident, _, ed) => {
+                let mut rec = Vec::new();
+                self.attr_texts("item", &i.attrs, &mut rec);
+                for v in ed.variants.iter() {
+                    self.attr_texts(&format!("variant {}", v.ident.name), &v.attrs, &mut rec);
+                    for f in v.data.fields() {
+                        let fname = f.ident.map(|x| x.name.to_string()).unwrap_or_default();
+                        self.attr_texts(&format!("field {}.{}", v.ident.name, fname), &f.attrs, &mut rec);
+                    }
+                }
+                self.out.push(J::obj().set(
+                    "adt_attrs",
+                    J::obj().set("name", J::s(ident.name.as_str())).set("at", self.loc(ident.span)).set("attrs", J::Arr(rec)),
+                ));
+            }
+            _ => {}
+        }
         self.stack.push(name);
         rustc_ast::visit::walk_item(self, i);
         self.stack.pop();
@@ -338,10 +386,16 @@ impl<'tcx> Dumper<'tcx> {
                         J::obj()
                             .set("name", J::s(f.name.as_str()))
                             .set("ty", self.ty(fty))
+                            .set("attrs", self.helper_attrs(f.did))
                             .set("pub", J::Bool(f.vis.is_public())),
                     );
                 }
-                variants.push(J::obj().set("name", J::s(v.name.as_str())).set("fields", J::Arr(fields)));
+                variants.push(
+                    J::obj()
+                        .set("name", J::s(v.name.as_str()))
+                        .set("attrs", self.helper_attrs(v.def_id))
+                        .set("fields", J::Arr(fields)),
+                );
             }
             let generics = tcx.generics_of(d);
             let gens: Vec<J> = generics.own_params.iter().map(|p| J::s(p.name.as_str())).collect();
@@ -353,9 +407,28 @@ impl<'tcx> Dumper<'tcx> {
                     .set("exported", J::Bool(tcx.effective_visibilities(()).is_reachable(ld)))
                     .set("generics", J::Arr(gens))
                     .set("span", self.span(tcx.def_span(d)))
+                    .set("attrs", self.helper_attrs(d))
                     .set("variants", J::Arr(variants))
                     .set("traits", self.type_traits(d)),
             );
+        }
+        J::Arr(out)
+    }
+
+    /// Source text of the non-builtin attributes (derive helpers such as `serde(..)`) the compiler kept on a
+    /// local item / variant / field after expansion (`cfg_attr` already resolved for this feature set).
+    fn helper_attrs(&self, d: DefId) -> J {
+        let tcx = self.tcx;
+        let mut out = Vec::new();
+        if let Some(ld) = d.as_local() {
+            let hid = tcx.local_def_id_to_hir_id(ld);
+            for a in tcx.hir_attrs(hid) {
+                if let rustc_hir::Attribute::Unparsed(item) = a {
+                    let sp = item.span;
+                    let txt = tcx.sess.source_map().span_to_snippet(sp).unwrap_or_else(|_| format!("{:?}", item.path));
+                    out.push(J::s(txt));
+                }
+            }
         }
         J::Arr(out)
     }
